@@ -133,4 +133,53 @@ Section EI.
   Proof.
     intros. eapply ei_run_total; eauto. apply inv_new. auto.
   Qed.
+  (** totality under a policy bounded in the number of entries (the real 0.75 policy) *)
+  Lemma ea_put_length : forall a e v, length (ea_put a e v) <= S (length a).
+  Proof. intros. apply assoc_put_length. Qed.
+  Lemma ea_add_length : forall a e, length (ea_add a e) <= S (length a).
+  Proof. intros. unfold ea_add. destruct (ea_value a e) as [[c l]|]; apply ea_put_length. Qed.
+
+  Lemma ei_run_total_b : forall B ops m a,
+      eiops_ok ops -> no_overflow_upto need B -> EInv m a -> length a + length ops <= B ->
+      ei_run need m ops <> None.
+  Proof.
+    induction ops as [|o ops IH]; simpl; intros m a HO NO I HB; [discriminate|].
+    inversion HO as [|? ? Ok HO']; subst. destruct o as [e cn ln|e|e]; simpl in Ok.
+    - unfold ei_put.
+      destruct (put ekey einfo_v ekey_hash ekey_eqb need m e (cn, ln)) as [m1|] eqn:P;
+        [|exfalso; revert P; eapply put_total_b with (B := B); eauto; lia].
+      eapply ei_put_ref in P; eauto.
+      assert (HB' : length (ea_put a e (cn, ln)) + length ops <= B) by (pose proof (ea_put_length a e (cn, ln)); lia).
+      specialize (IH _ _ HO' NO P HB').
+      destruct (ei_run need m1 ops) as [[? ?]|]; [discriminate|congruence].
+    - destruct (ei_add need m e) as [m1|] eqn:P.
+      + eapply ei_add_ref in P; eauto.
+        assert (HB' : length (ea_add a e) + length ops <= B) by (pose proof (ea_add_length a e); lia).
+        specialize (IH _ _ HO' NO P HB').
+        destruct (ei_run need m1 ops) as [[? ?]|]; [discriminate|congruence].
+      + unfold ei_add in P. rewrite (ei_value_ref m a e Ok I) in P.
+        exfalso. destruct (ea_value a e) as [[c l]|]; revert P; eapply put_total_b with (B := B); eauto; lia.
+    - rewrite (ei_value_ref m a e Ok I).
+      assert (HB' : length a + length ops <= B) by lia.
+      specialize (IH _ _ HO' NO I HB').
+      destruct (ei_run need m ops) as [[? ?]|]; [discriminate|congruence].
+  Qed.
+
+  Theorem edgeindex_total_bounded_gen : forall B cap ops,
+      (cap < W64)%N -> eiops_ok ops -> no_overflow_upto need B -> length ops <= B ->
+      ei_run need (new_edge_index cap) ops <> None.
+  Proof.
+    intros B cap ops Hc HO NO HB.
+    apply (ei_run_total_b B ops _ [] HO NO (inv_new ekey einfo_v ekey_hash ekey_eqb ok_key cap Hc)). simpl. exact HB.
+  Qed.
 End EI.
+
+(** the split index under the real 0.75 policy never panics within 2^62 operations *)
+Theorem edgeindex_total_real_policy_gen : forall (L : list string) cap ops,
+    (cap < W64)%N -> eiops_ok L ops -> (N.of_nat (length ops) <= 2 ^ 62)%N ->
+    ei_run need75_model (new_edge_index cap) ops <> None.
+Proof.
+  intros L cap ops Hc HO HB.
+  apply (edgeindex_total_bounded_gen L need75_model (2 ^ 62) cap ops Hc HO need75_upto).
+  now apply le_pow62.
+Qed.
